@@ -8,7 +8,7 @@ from ..cfg import ENTRY, EXIT, RAISE, reaching_defs
 from ..common import calls_named, dotted, kw, loc, norm
 from ..model import AnalysisError, own_nodes
 from .util import anchor_func, assigned_name, build_cfg, facts, is_zero_expr, switch_assumptions
-from . import c13
+from . import c13, opcontract
 
 TENSOR = "mygrad.tensor_base.Tensor"
 DUP = "mygrad._utils.duplicating_graph"
@@ -542,6 +542,65 @@ def r05_11(run):
     run.count("id() uses in op methods", n)
 
 
+def r05_12(run):
+    """backward code reads operand values through self.variables only.  An in-place update of a public tensor re-routes every recorded op to a
+    placeholder that keeps the pre-mutation array -- by replacing the entries of op.variables.  A reference to the operand tensor that the op
+    keeps on the side (`self.gamma = gamma`) still points at the public tensor: reading its `.data` in backward differentiates an earlier
+    operation through the post-mutation values."""
+    n = 0
+    for c in run.project.concrete_ops():
+        callm = c.lookup_method("__call__")
+        if callm is None:
+            continue
+        v = opcontract.variables_of(run, c)
+        tparams = set(v.params) if v is not None and not v.star else set()
+        if not tparams:
+            continue
+        # attributes bound (possibly conditionally / through a local alias) to an operand tensor
+        alias = {p_: p_ for p_ in tparams}
+        kept = {}
+        for st in own_nodes(callm.node):
+            if isinstance(st, ast.Assign) and len(st.targets) == 1:
+                t, val = st.targets[0], st.value
+                roots = {x.id for x in ast.walk(val) if isinstance(x, ast.Name)} & set(alias)
+                is_tensor_expr = isinstance(val, ast.Name) or (isinstance(val, ast.IfExp) and all(
+                    isinstance(b_, ast.Name) or (isinstance(b_, ast.Constant) and b_.value is None) for b_ in (val.body, val.orelse)))
+                if isinstance(t, ast.Attribute) and norm(t.value) == "self" and t.attr != "variables" and roots and is_tensor_expr:
+                    kept[t.attr] = sorted(roots)[0]
+        if not kept:
+            continue
+        for mname in ("backward_var", "backward"):
+            m = c.methods.get(mname)
+            if m is None:
+                continue
+            # references re-homed from self.variables at the head of the method (`(self.X, self.W, ...) = self.variables`, or
+            # `self.gamma = self.variables[1]`) are current: the store must dominate the read
+            cfgm = build_cfg(run, m)
+            rehomed = {}
+            for st in own_nodes(m.node):
+                if isinstance(st, ast.Assign) and norm(st.value).startswith("self.variables"):
+                    for t_ in st.targets:
+                        for x in ast.walk(t_):
+                            if isinstance(x, ast.Attribute) and norm(x.value) == "self" and isinstance(x.ctx, ast.Store):
+                                rehomed.setdefault(x.attr, []).append(cfgm.node_for(st))
+            reads = []
+            for x in own_nodes(m.node):
+                if isinstance(x, ast.Attribute) and x.attr == "data" and isinstance(x.value, ast.Attribute) \
+                        and norm(x.value.value) == "self" and x.value.attr in kept:
+                    at = cfgm.stmt_node_containing(x)
+                    doms = [d_ for d_ in rehomed.get(x.value.attr, []) if d_ is not None and at is not None and cfgm.dominates(d_, at)]
+                    if not doms:
+                        reads.append(x)
+            n += 1
+            attrs = sorted({x.value.attr for x in reads})
+            run.ob("R05.12", loc(m, reads[0] if reads else m.node), m.short,
+                   "operand values are read through self.variables, not through references kept on the side", not reads,
+                   f"the kept references {sorted(kept)} are only tested (is None / .constant), never dereferenced for data" if not reads else
+                   f"reads .data of {['self.' + a_ for a_ in attrs]}: these still point at the public tensors after an in-place update re-routed "
+                   f"self.variables to the pre-mutation placeholders, so this (earlier) operation is differentiated at the post-mutation values")
+    run.count("backward methods of ops keeping operand references", n)
+
+
 def check(run):
     run.rule("R05.1", "the tracked in-place kernel writes into a private copy of the base (def-use chain to graph.base.tensor.copy()), made after "
              "the graph duplication; operands are placeholders", floor=4)
@@ -563,6 +622,8 @@ def check(run):
     run.rule("R05.9", "routing ops (SetItem, UnView, ApplyMask) and the ufunc where-mask drop excluded entries by assignment/selection, never by "
              "scaling with a 0/1 mask (0 * nan = nan leaks a non-finite gradient into overwritten / masked-out contents)", floor=4)
     run.do(r05_9)
+    run.rule("R05.12", "backward code dereferences operand tensors through self.variables only (kept side references are not re-routed)", floor=2)
+    run.do(r05_12)
     run.rule("R05.11", "ops never freeze id(<operand>) in their forward pass (placeholder re-routing replaces op.variables)", floor=1)
     run.do(r05_11)
     run.rule("R05.10", "index classifiers decide from the converted element (dtype kind, ndim), not from its Python type", floor=2)
